@@ -589,25 +589,55 @@ Section Memo.
     apply (fr_mapM store mono mono_refl mono_trans). intros x _ s0 r0 s0' l0 H0. exact (eval_mono _ _ _ _ _ _ H0).
   Qed.
 
+  Lemma mapM_app_okE {A B} (f : A -> M B) a b s va s1 l1 vb s2 l2 :
+    mapM store f a s = (Ok va, s1, l1) -> mapM store f b s1 = (Ok vb, s2, l2) ->
+    mapM store f (a ++ b) s = (Ok (va ++ vb), s2, l1 ++ l2).
+  Proof.
+    revert s va l1. induction a as [|x a IH]; intros s va l1 Ha Hb.
+    - cbn in Ha. inversion Ha; subst. exact Hb.
+    - cbn [app]. rewrite mapM_cons in *.
+      apply bind_ok in Ha as (y & sa & la & lb & Hx & Ha & ->).
+      apply bind_ok in Ha as (ys & sb & lc & ld & Hrest & Ha & ->).
+      cbn in Ha. inversion Ha; subst. clear Ha.
+      rewrite (bind_okE _ _ _ _ _ _ _ Hx). rewrite (bind_okE _ _ _ _ _ _ _ (IH _ _ _ Hrest Hb)).
+      unfold Eval.ret, TraceProofs.after. cbn [fst snd app]. now rewrite !app_nil_r, <- !app_assoc.
+  Qed.
+
   Theorem shared_dependency_runs_once cid e o pre mid post s vs s' l :
     kstatic e = true -> cache_off o = false ->
     let n := ECached (CMem cid) e in
     mapM store (fun x => eval x o) (pre ++ n :: mid ++ n :: post) s = (Ok vs, s', l) ->
-    exists la l1 lb lc, l = la ++ l1 ++ lb ++ hit_log cid e o ++ lc /\ code_free (hit_log cid e o) = true.
+    exists va v1 vm w vp s1 s2 s4 la l1 lb lc,
+      mapM store (fun x => eval x o) pre s = (Ok va, s1, la) /\
+      eval n o s1 = (Ok v1, s2, l1) /\
+      mapM store (fun x => eval x o) mid s2 = (Ok vm, s4, lb) /\
+      mapM store (fun x => eval x o) (pre ++ n :: mid) s = (Ok (va ++ v1 :: vm), s4, la ++ l1 ++ lb) /\
+      eval n o s4 = (Ok w, s4, hit_log cid e o) /\
+      mapM store (fun x => eval x o) post s4 = (Ok vp, s', lc) /\
+      vs = va ++ v1 :: vm ++ w :: vp /\
+      l = la ++ l1 ++ lb ++ hit_log cid e o ++ lc /\
+      code_free (hit_log cid e o) = true.
   Proof.
     intros Hk Hc n H.
-    apply mapM_app_ok in H as (va & vb & s1 & la & l2 & _ & H & _ & ->).
+    apply mapM_app_ok in H as (va & vb & s1 & la & l2 & Hpre & H & -> & ->).
     rewrite mapM_cons in H. apply bind_ok in H as (v1 & s2 & l1 & l3 & Hn1 & H & ->).
     apply bind_ok in H as (vs2 & s3 & l4 & l5 & H & Hret & ->).
     cbn in Hret. inversion Hret; subst. clear Hret.
-    apply mapM_app_ok in H as (vm & vp & s4 & lb & l6 & Hmid & H & _ & ->).
+    apply mapM_app_ok in H as (vm & vp0 & s4 & lb & l6 & Hmid & H & -> & ->).
     rewrite mapM_cons in H. apply bind_ok in H as (v2 & s5 & l7 & l8 & Hn2 & H & ->).
+    apply bind_ok in H as (vp & s6 & l9 & l10 & Hpost & Hret & ->).
+    cbn in Hret. inversion Hret; subst. clear Hret.
     destruct (node_eval_stores cid e o s1 v1 s2 l1 Hk Hc Hn1) as (f & Hf & Hst).
     assert (Hst4 : stored cid f s4) by (apply (mapM_eval_mono _ _ _ _ _ _ Hmid), Hst).
     destruct (stored_then_hit cid e o s4 f Hk Hc Hf Hst4) as (w & _ & Hhit).
-    fold n in Hhit. rewrite Hhit in Hn2. inversion Hn2; subst.
-    exists la, l1, lb, l8. split; [|now apply hit_log_code_free].
-    rewrite !app_nil_r. rewrite <- ?app_assoc. reflexivity.
+    fold n in Hhit. rewrite Hhit in Hn2. injection Hn2 as E1 E2 E3. subst v2 s5 l7.
+    exists va, v1, vm, w, vp, s1, s2, s4, la, l1, lb, l9.
+    repeat split; try assumption.
+    - apply (mapM_app_okE _ _ _ _ _ _ _ _ _ _ Hpre).
+      rewrite mapM_cons, (bind_okE _ _ _ _ _ _ _ Hn1), (bind_okE _ _ _ _ _ _ _ Hmid).
+        unfold Eval.ret, TraceProofs.after. cbn [fst snd]. now rewrite app_nil_r.
+    - rewrite !app_nil_r. rewrite <- ?app_assoc. reflexivity.
+    - now apply hit_log_code_free.
   Qed.
 
   (** * F. Effects *)
